@@ -546,6 +546,29 @@ Proof.
   destruct (dec_value ds <? two63); reflexivity.
 Qed.
 
+(* signed literals: -digits is accepted exactly down to -2^63 *)
+Theorem negate_int_lit_spec ds :
+  ds <> [] -> forallb is_digit ds = true ->
+  negate_int_lit ds = if dec_value ds <=? two63 then ((- Z.of_N (dec_value ds))%Z, 0) else (0%Z, 1).
+Proof.
+  intros Hne Hd. unfold negate_int_lit. rewrite (parse_int_lit_spec ds Hne Hd).
+  unfold parse_int_go. change (45 =? 43) with false. change (45 =? 45) with true. cbn match.
+  destruct ds as [|c ds]; [contradiction|].
+  rewrite (parse_uint_loop_spec (c :: ds) Hd 0) by (unfold two64; lia).
+  change (fold_left hstep (c :: ds) 0) with (dec_value (c :: ds)).
+  set (v := dec_value (c :: ds)). unfold two64, two63. cbn [negb andb].
+  destruct (N.ltb_spec v 18446744073709551616) as [H64|H64].
+  - destruct (N.ltb_spec 9223372036854775808 v) as [Hgt|Hle].
+    + destruct (N.ltb_spec v 9223372036854775808); [lia|].
+      destruct (N.leb_spec v 9223372036854775808); [lia|]. reflexivity.
+    + destruct (N.leb_spec v 9223372036854775808); [|lia].
+      destruct (Z.eqb_spec (- Z.of_N v) (-9223372036854775808)) as [E|E].
+      * reflexivity.
+      * destruct (N.ltb_spec v 9223372036854775808); [reflexivity|lia].
+  - destruct (N.ltb_spec v 9223372036854775808); [lia|].
+    destruct (N.leb_spec v 9223372036854775808); [lia|]. reflexivity.
+Qed.
+
 (* ---- quote trimming ---------------------------------------------------------------------------------- *)
 
 Lemma lit_body_quotes q body : lit_body q (q :: body ++ [q]) = body.
